@@ -6,7 +6,7 @@ FUNCTIONS = ["gcmpy.joint_degree.joint_degree_loaders.joint_degree_cover.JointDe
              "gcmpy.joint_degree.joint_degree.JointDegree.convert_jds_to_jdd"]
 STUBS = []
 BOUNDS = {
-    "quick": "every cover of 1-2 cliques of 2..5 vertices over vertex ids z..z+V-1 (V<=5, z in {0,1}, every id used, members of a clique distinct), "
+    "quick": "every cover of 1-3 cliques of 1..4 vertices over V<=4 (1-cliques included), every cover of 1-2 cliques of 2..5 vertices over vertex ids z..z+V-1 (V<=5, z in {0,1}, every id used, members of a clique distinct), "
              "plus 3-clique covers with size patterns (2,2,4),(2,4,4),(2,5,2),(5,2,2),(3,5,2),(2,2,5),(3,3,3) over V<=6 whose first clique is z..z+s-1, plus covers made of a fixed 8- or 9-clique, a fixed triangle and one free 2-/3-clique, plus two concrete high-multiplicity covers "
              "(a hub in 300 two-cliques, a windmill of 260 triangles)",
     "thorough": "every cover of <=3 cliques over V<=5, and the size-pattern family over V<=6 with 4 cliques",
@@ -24,6 +24,10 @@ PATTERNS4 = [(2, 2, 5, 2), (2, 4, 2, 4), (5, 2, 2, 3), (3, 5, 3, 2)]
 def configs(tier):
     q = tier == "quick"
     cfgs = []
+    # covers that contain 1-cliques (isolated vertices listed as their own clique)
+    for V in (3, 4):
+        for z in (0, 1):
+            cfgs.append({"name": f"all-c3-V{V}-z{z}-with-1-cliques", "kind": "all", "C": 3, "V": V, "z": z, "min_size": 1})
     for V in range(2, 6):
         for z in (0, 1):
             cfgs.append({"name": f"all-c2-V{V}-z{z}", "kind": "all", "C": 2, "V": V, "z": z})
@@ -62,7 +66,7 @@ def fork_cover(ctx, cfg):
         V = ctx.fork_int(ctx.int("V", max(sizes), cfg["V"]))
     else:
         C = ctx.fork_int(ctx.int("ncliques", 1 if cfg["kind"] == "all" else 3, cfg["C"]))
-        sizes = [ctx.fork_int(ctx.int(f"size{j}", 2, min(5, V))) for j in range(C)]
+        sizes = [ctx.fork_int(ctx.int(f"size{j}", cfg.get("min_size", 2), min(5, V))) for j in range(C)]
     members = []
     for j, s in enumerate(sizes):
         ms = [ctx.int(f"c{j}_{i}", z, z + V - 1) for i in range(s)]
@@ -104,9 +108,9 @@ def path(ctx, cfg):
     for t in rows.values():
         cnt[t] = cnt.get(t, 0) + 1
     jdd = obj.jdd
-    cols_ok = isinstance(jdd, dict) and all(len(k) == len(sizes) for k in jdd)
+    cols_ok = isinstance(jdd, dict) and all(isinstance(k, tuple) and len(k) == len(sizes) for k in jdd)
     ctx.require(cols_ok, "columns", lambda: f"{desc}: keys {sorted(jdd)} do not have one column per occurring size {sizes}", twin=(not cols_ok), sig="columns")
     ok = cols_ok and set(jdd) == set(cnt) and all(close(jdd[t] * V, cnt[t]) for t in cnt)
     ctx.require(ok, "per-vertex-counts", lambda: f"{desc}: distribution {jdd}, expected counts {cnt} over {V} vertices",
                 twin=(cols_ok and set(jdd) == set(cnt) and all(close(jdd[t] * V, cnt[t] + 1) for t in cnt)), sig="per-vertex-counts")
-    ctx.observe("jdd", sorted((list(k), v) for k, v in jdd.items()) if isinstance(jdd, dict) else None)
+    ctx.observe("jdd", sorted((list(k) if isinstance(k, tuple) else k, v) for k, v in jdd.items()) if isinstance(jdd, dict) else None)
